@@ -240,6 +240,17 @@ func c09GenOp(r *rand.Rand, doc any, o genOpts) rop {
 			default:
 				op.Val = deepCopy(v)
 			}
+		} else if m, isMap := v.(map[string]any); ok && isMap && len(m) > 0 && r.Intn(3) == 0 {
+			// a mapping that holds only SOME of the members found there (or none): not equal, the test fails
+			sub := deepCopy(m).(map[string]any)
+			for _, k := range sortedKeys(sub) {
+				if r.Intn(2) == 0 || len(sub) == len(m) {
+					delete(sub, k)
+				}
+			}
+			op.Val = sub
+		} else if l, isList := v.([]any); ok && isList && len(l) > 0 && r.Intn(3) == 0 {
+			op.Val = deepCopy(l[:len(l)-1]) // a proper prefix of the list found there
 		} else if ok && r.Intn(2) == 0 {
 			op.Val = deepCopy(v)
 		} else {
